@@ -202,3 +202,22 @@ Definition calls_prefix (prescan shared writer : bool) : list nat :=
   (if prescan then [2] else []) ++ calls_allgather shared writer.
 Definition calls_memcpy (shared writer : bool) : list nat :=
   calls_write_start shared writer ++ calls_write_end shared writer.
+(* 9 Win_allocate_shared(intranode) 10 Win_free: sc_shmem_malloc gathers the window handles in front of the array *)
+Definition calls_malloc (shared : bool) : list nat := if shared then [9; 3; 5; 8] else [].
+Definition calls_free (shared : bool) : list nat := if shared then [6; 10] else [].
+
+(* wrap of the supported integer datatypes, numbered as in the harness:
+   0 char 1 short 2 unsigned short 3 int 4 unsigned 5 long 6 unsigned long 7 long long *)
+From ScV Require Import Base.CInt.
+Definition wrap_of (d : nat) : Z -> Z :=
+  match d with
+  | 0 => s8 | 1 => s16 | 2 => u16 | 3 => s32 | 4 => u32 | 5 => s64 | 6 => u64 | _ => s64
+  end.
+
+(* everything the harness prints for one rank *)
+Definition rank_report (d P : nat) (comms : nat -> option node_comms) (count : nat) (f : flavour)
+           (contrib : nat -> vec) (r : nat) :=
+  let sh := shared_on comms f r in
+  let w := write_start comms f r in
+  (shmem_allgather P comms f contrib r, shmem_prefix (wrap_of d) P comms count f contrib r, w,
+   (calls_malloc sh, calls_allgather sh w, calls_prefix (prescan_on comms f r) sh w, calls_memcpy sh w, calls_free sh)).
